@@ -11,6 +11,7 @@ import SpatialId.Props.C04
 import SpatialId.Props.C08
 import SpatialId.Props.C13
 import SpatialId.Model.Util
+import SpatialId.Props.C05
 namespace SpatialId.C16
 open SpatialId
 
@@ -77,10 +78,20 @@ theorem any_set {α} (l l' : List α) (p : α → Bool) (h : SameSet l l') : l.a
   · exact ⟨a, (h a).mp ha, hp⟩
   · exact ⟨a, (h a).mpr ha, hp⟩
 
+theorem allExt_set (l l' : List String) (h : SameSet l l') : allExt l = allExt l' := by
+  unfold allExt
+  rw [Bool.eq_iff_iff, List.all_eq_true, List.all_eq_true]
+  constructor <;> intro hh s hs
+  · exact hh s ((h s).mpr hs)
+  · exact hh s ((h s).mp hs)
+
 theorem overlapArr_set (as as' bs bs' : List String) (f : String → String → Bool)
+    (hA : allExt as = true) (hB : allExt bs = true)
     (hok : ∀ a b, overlapExt a b = .ok (f a b)) (ha : SameSet as as') (hb : SameSet bs bs') :
     overlapExtArr as bs = overlapExtArr as' bs' := by
-  rw [C05.arr_eq_any as bs f (fun a _ b _ => hok a b), C05.arr_eq_any as' bs' f (fun a _ b _ => hok a b)]
+  rw [C05.arr_eq_any as bs f hA hB (fun a _ b _ => hok a b),
+    C05.arr_eq_any as' bs' f (by rw [← allExt_set as as' ha]; exact hA) (by rw [← allExt_set bs bs' hb]; exact hB)
+      (fun a _ b _ => hok a b)]
   congr 1
   rw [any_set as as' _ ha]
   congr 1; funext a
